@@ -374,6 +374,17 @@ theorem C09_sorted_remap (C : Compression) (hC : GoodCompression C) (K P tbs bs 
     have hlt := hord o (List.mem_of_getElem? ho)
     simp [List.getElem?_eq_getElem hlt]
 
+/-- the instance the code uses: temporary store with the extracted block size, compressor none -/
+theorem C09_sorted_remap_extracted (C : Compression) (hC : GoodCompression C) (bs : Nat) (hbs : bs < 4294967296)
+    (docs : List Bytes) (hne : docs ≠ [])
+    (hall : ∀ d ∈ docs, d ≠ [] ∧ Gen.TEMP_STORE_BLOCKSIZE + d.length < 4294967296 ∧ bs + d.length < 4294967296)
+    (order : List Nat) (hord : ∀ o ∈ order, o < docs.length) (hone : order ≠ []) (i : Nat) :
+    getBytes C (writtenStore C Gen.STORE_INDEX_ENTRY_COST Gen.CHECKPOINT_PERIOD bs
+        (order.map fun o => docs[o]?.getD [])) i = (order[i]?).bind fun o => docs[o]? := by
+  obtain ⟨picked, _, hp, hget⟩ := C09_sorted_remap C hC Gen.STORE_INDEX_ENTRY_COST Gen.CHECKPOINT_PERIOD
+    Gen.TEMP_STORE_BLOCKSIZE bs (by decide) (by decide) (by decide) hbs docs hne hall order hord hone
+  rw [← hp]; exact hget i
+
 /-! ### dedicated compressor thread -/
 
 /-- `docstore_compress_dedicated_thread = true`: for every interleaving of the producer's sends and
@@ -416,6 +427,17 @@ theorem C09_cache_transparent_get_and_iter (C : Compression) (hC : GoodCompressi
     (cap : Nat) (ops : List ReaderOp) :
     (runOps C sf (BlockCache.new cap) ops).1 = ops.map (ReaderOp.plain C sf) :=
   holds_runOps C hC.nonempty P hP sf docs hne h cap ops
+
+/-- the LRU holds at most `cache_num_blocks` decompressed blocks and never the same block twice,
+after any sequence of fetches (so `CacheStats::num_entries ≤ capacity`, and capacity 0 caches
+nothing) -/
+theorem C09_cache_bounded (C : Compression) (sf : StoreFile) (cap : Nat) (accesses : List Nat) :
+    let c := (runGets C sf (BlockCache.new cap) accesses).2
+    c.entries.length ≤ cap ∧ (c.entries.map (·.1)).Nodup := by
+  obtain ⟨h1, h2⟩ := runGets_sized C sf accesses (BlockCache.new cap) (cacheSized_new cap)
+  have hcap : (BlockCache.new cap).cap = cap := rfl
+  rw [hcap] at h2
+  exact ⟨by have := h1.1; rw [h2] at this; exact this, h1.2⟩
 
 /-- a cache keyed by something that does not determine the block is *not* transparent: two
 checkpoints with the same key and different blocks (the state a wrong key after stacking would
@@ -540,6 +562,37 @@ theorem C09_merge_mapped (C : Compression) (hC : GoodCompression C) (K P bs : Na
   intro merged
   have hh : Holds C P merged picked := ⟨groups, _, hd, hl, hg, rfl⟩
   exact ⟨hh, fun hne i => holds_get C hC.roundtrip P hP merged picked hne hh i⟩
+
+/-- The mapped merge reads its documents from the sources' stores: with `its` the live documents
+that `iter_raw(alive_bitset)` yields for stores that hold `docs_s` (`C09_iter_live_in_order`), the
+iterators the merger consumes are exactly `liveDocs alive_s 0 docs_s`, so `C09_merge_mapped`
+applies to them: the merged store holds the documents picked by the mapping. -/
+theorem C09_merge_mapped_from_stores (C : Compression) (hC : GoodCompression C) (K P bs : Nat) (hK : 1 ≤ K)
+    (hP : 2 ≤ P) (hbs : bs < 4294967296)
+    (srcs : List (StoreFile × Compression × (Nat → Bool) × List Bytes))
+    (hsrc : ∀ s ∈ srcs, Holds s.2.1 P s.1 s.2.2.2 ∧ (∀ b, s.2.1.decomp (s.2.1.comp b) = some b) ∧ s.2.2.2 ≠ [] ∧
+      (∀ d ∈ s.2.2.2, d ≠ [] ∧ bs + d.length < 4294967296))
+    (order : List Nat) (picked : List Bytes)
+    (hp : pickDocs (srcs.map fun s => liveDocs s.2.2.1 0 s.2.2.2) order = some picked) :
+    (srcs.map fun s => iterRaw s.2.1 s.1 s.2.2.1) = (srcs.map fun s => (liveDocs s.2.2.1 0 s.2.2.2).map some) ∧
+    ∃ w, mergeMapped C K (Writer.new bs) (srcs.map fun s => iterRaw s.2.1 s.1 s.2.2.1) order = some w ∧
+      Holds C P { data := (w.sendBlock C).written, index := finishedLayers P (w.sendBlock C).checkpoints,
+                  decompId := C.id, version := Gen.DOC_STORE_VERSION } picked := by
+  have hit : (srcs.map fun s => iterRaw s.2.1 s.1 s.2.2.1)
+      = (srcs.map fun s => (liveDocs s.2.2.1 0 s.2.2.2).map some) := by
+    apply List.map_congr_left
+    intro s hs
+    obtain ⟨h1, h2, h3, _⟩ := hsrc s hs
+    exact holds_iter s.2.1 h2 P hP s.1 s.2.2.2 h3 h1 s.2.2.1
+  refine ⟨hit, ?_⟩
+  have hall : ∀ l ∈ (srcs.map fun s => liveDocs s.2.2.1 0 s.2.2.2), ∀ d ∈ l, d ≠ [] ∧ bs + d.length < 4294967296 := by
+    intro l hl d hd
+    obtain ⟨s, hs, rfl⟩ := List.mem_map.mp hl
+    exact (hsrc s hs).2.2.2 d (liveDocs_sub _ _ _ d hd)
+  obtain ⟨w, e, hh, _⟩ := C09_merge_mapped C hC K P bs hK hP hbs _ order picked hp hall
+  refine ⟨w, ?_, hh⟩
+  rw [hit, ← e, List.map_map]
+  rfl
 
 /-- stacking is only correct under its guard: stacking a source in which document 0 is deleted
 keeps that document (the per-document path would drop it) -/
@@ -710,5 +763,17 @@ so it is copied, not stacked -/
 example : (SourceSegment.ofReader (writtenStore Compression.none 8 8 100 [[1], [2], [3]]) Compression.none
     none (some fun i => i != 1) 3).hasDeletes = true := by decide +kernel
 example : liveDocs (intersectAlive none (some fun i => i != 1)) 0 [[1], [2], [3]] = [[1], [3]] := by decide
+
+/-- capacity 1, three blocks visited: one entry stays -/
+example : (runGets Compression.none (writtenStore Compression.none 8 8 9 [[1], [2, 3, 4, 5, 6, 7, 8, 9, 10, 11, 12], [13, 14]])
+    (BlockCache.new 1) [0, 2, 0, 1]).2.entries.length = 1 := by decide +kernel
+
+/-- hypotheses of `C09_sorted_remap_extracted` on a concrete reversal -/
+example : ∀ d ∈ ([[1], [2, 2], [3]] : List Bytes), d ≠ [] ∧ Gen.TEMP_STORE_BLOCKSIZE + d.length < 4294967296
+    ∧ 16 + d.length < 4294967296 := by decide
+
+/-- hypotheses of `C09_merge_mapped_from_stores`: two stores, a mapping interleaving them -/
+example : pickDocs ([(fun (_ : Nat) => true, [[1], [2]]), (fun i => i != 0, [[3], [4]])].map
+    fun s => liveDocs s.1 0 s.2) [1, 0, 0] = some [[4], [1], [2]] := by decide
 
 end TantivyModel.C09
